@@ -355,17 +355,18 @@ theorem dash_mem_inlineRaw : ∀ (s : Bytes), 46 ∈ s → 45 ∈ inlineRaw s
           · exact h
         simp [dash_mem_inlineRaw r this]
 
-/-- the handler on `<L>.<ns>.<gwHost>` where `L` is a canonical CID label -/
-theorem handle_subdomain_cid (kf : Bool) (env : Env) (cfg : Config) (gwHost ns L path q frag : Bytes) (https : Bool)
+/-- the handler on `<L>.<ns>.<gwHost>` (as Host or as X-Forwarded-Host) where `L` is a canonical CID label -/
+theorem handle_subdomain_cid (kf : Bool) (env : Env) (cfg : Config) (gwHost ns L : Bytes) (rq : Req)
     (gw : GW) (c : Cid)
+    (heff : effectiveHost rq = L ++ 46 :: (ns ++ 46 :: gwHost))
     (hunk : isKnownHostname cfg (L ++ 46 :: (ns ++ 46 :: gwHost)) = none)
     (hksd : knownSubdomainDetails cfg (L ++ 46 :: (ns ++ 46 :: gwHost)) = some (gw, gwHost, ns, L))
     (hus : gw.useSubdomains = true) (hpp : hasPathPrefix (47 :: ns ++ 47 :: L) gw.paths = true)
     (hd : env.codecs.decode L = some c) (hlen : L.length ≤ 63)
     (hcodec : isPeerIDNamespace ns = true → c.codec = libp2pKey) :
-    handle kf env cfg { host := L ++ 46 :: (ns ++ 46 :: gwHost), path := path, rawQuery := q, fragment := frag, https := https } =
-      .next ((47 :: ns ++ 47 :: L) ++ path) (.subdomain gwHost) := by
+    handle kf true env cfg rq = .next ((47 :: ns ++ 47 :: L) ++ rq.path) (.subdomain gwHost) := by
   unfold handle
+  simp only [heff]
   simp only [hunk, hksd, hus, hpp, hd, Bool.and_self, Bool.not_true, Bool.false_eq_true, ↓reduceIte]
   have hl : toDNSLabel L (env.codecs.enc true c.codec c.mh) = some L := by
     simp [toDNSLabel, dnsLabelMaxLength, hlen]
@@ -375,20 +376,30 @@ theorem handle_subdomain_cid (kf : Bool) (env : Env) (cfg : Config) (gwHost ns L
   · simp [hcodec hp]
 
 /-- the handler on `<rootID>.ipns.<gwHost>` where `rootID` is not a CID -/
-theorem handle_subdomain_name (kf : Bool) (env : Env) (cfg : Config) (gwHost rootID path q frag : Bytes) (https : Bool)
+theorem handle_subdomain_name (kf ch : Bool) (env : Env) (cfg : Config) (gwHost rootID : Bytes) (rq : Req)
     (gw : GW)
+    (heff : effectiveHost rq = rootID ++ 46 :: (IPNS ++ 46 :: gwHost))
     (hunk : isKnownHostname cfg (rootID ++ 46 :: (IPNS ++ 46 :: gwHost)) = none)
     (hksd : knownSubdomainDetails cfg (rootID ++ 46 :: (IPNS ++ 46 :: gwHost)) = some (gw, gwHost, IPNS, rootID))
     (hus : gw.useSubdomains = true) (hpp : hasPathPrefix (47 :: IPNS ++ 47 :: rootID) gw.paths = true)
     (hd : env.codecs.decode rootID = none) :
-    handle kf env cfg { host := rootID ++ 46 :: (IPNS ++ 46 :: gwHost), path := path, rawQuery := q, fragment := frag, https := https } =
+    handle kf ch env cfg rq =
       .next ((if !contains 46 rootID && contains 45 rootID then
           if env.hasDNSLink (uninlineDNSLink rootID) then ipnsSlash ++ uninlineDNSLink rootID
           else if !env.hasDNSLink rootID then ipnsSlash ++ uninlineDNSLink rootID
           else 47 :: IPNS ++ 47 :: rootID
-        else 47 :: IPNS ++ 47 :: rootID) ++ path) (.subdomain gwHost) := by
+        else 47 :: IPNS ++ 47 :: rootID) ++ rq.path) (.subdomain gwHost) := by
   unfold handle
+  simp only [heff]
   simp only [hunk, hksd, hus, hpp, hd, Bool.and_self, Bool.not_true, Bool.false_eq_true, ↓reduceIte]
   simp
+
+/-- the optional canonical-CID / peer-ID redirects never produce a `next` outcome -/
+theorem redir_opt_not_next (c : Bool) (x : Redir) (p : Bytes) (k : Ctx) :
+    (if c then (match x with
+      | Redir.err => some Out.badRequest
+      | Redir.to u => some (Out.redirect u)
+      | Redir.no => none) else none) ≠ some (Out.next p k) := by
+  cases c <;> cases x <;> simp
 
 end C32
